@@ -902,3 +902,8 @@ pub fn family_from_raw(cfg: FamCfg, us: &[u16], seed: u64) -> FamCase {
 pub fn family_strategy(cfg: FamCfg) -> impl Strategy<Value = FamCase> {
     (proptest::collection::vec(any::<u16>(), 260), any::<u64>()).prop_map(move |(us, seed)| family_from_raw(cfg, &us, seed))
 }
+
+/// appended to the rule of the checks that use the catalogue generator (`case_strategy`)
+pub const REGIMES_CATALOGUE: &str = " Shared generator regimes (class labels in coverage.classes): every case runs inside a dedicated rayon pool of 1, 2, 3, 4, 5, 7 or 16 workers chosen from its shape; 1/8 of the unit-consistent specs in other units of x (x on [0,10]·10^e, parameters scaled by their dimension, e = ±3, ±6, ±9); near collisions of same-role parameters with relative offsets 10^-U(3,15.5); 1/16 of the cases with all observations in other units of y (1e±6..1e±18, f32 up to 1e±16), 1/16 (several right-hand sides) with every column in a unit of its own; weights: none, ones or another common value, positive 1e-3..1e3, with zeros, with negatives, 1/32 all tiny (x1e-20, f32 x1e-10) or huge (x1e12); rarely N up to 200, S = 32..101, M = 13..24 with up to 40 parameters.";
+/// appended to the rule of the checks that use the family generator (`family_strategy`)
+pub const REGIMES_FAMILY: &str = " Shared generator regimes (class labels in coverage.classes): every instance runs inside a dedicated rayon pool of 1, 2, 3, 4, 5, 7 or 16 workers chosen from its shape; 15 % of the instances in other units of x (e = ±3, ±6, ±9), 10 % in other units of y (amplitudes, noise and calibrated weights scaled by 1e±4..1e±18; f32 up to 1e±8); location parameters start within a fraction of the peak width; where enabled: long data sets (N = 1024..5100, 1/64), data the model reproduces exactly (1/64), further families (one Gaussian: M < P; two Gaussians + offset; Lorentzian on a linear background; sine + offset; rate + damped cosine sharing the rate).";
